@@ -246,6 +246,40 @@ def rule_requested_rules(ctx, rep):
         rep.check("R-REQUESTED-RULES", q, fn.loc(), ok, "factory", "from_core_codemod no longer requests exactly the rule ids it puts in ToolMetadata: " + why)
 
 
+MUTATORS = {"append", "extend", "insert", "add", "update", "remove", "pop", "clear", "sort", "reverse", "__iadd__", "discard"}
+
+
+def rule_requested_rules_frozen(ctx, rep):
+    """second clause of R-REQUESTED-RULES: after construction nobody changes what a codemod requests"""
+    n = 0
+    for fn in ctx.prog.live_functions():
+        if fn.module.name.startswith(("codemodder.codemods.test", "codemodder.scripts")):
+            continue
+        for x in walk_no_nested(fn.node):
+            tgt = None
+            if isinstance(x, (ast.Assign, ast.AugAssign, ast.AnnAssign)):
+                for t in (x.targets if isinstance(x, ast.Assign) else [x.target]):
+                    for y in ast.walk(t):
+                        if isinstance(y, ast.Attribute) and y.attr == "requested_rules" and isinstance(y.ctx, ast.Store):
+                            tgt = x
+                        if isinstance(y, ast.Subscript) and isinstance(y.value, ast.Attribute) and y.value.attr == "requested_rules":
+                            tgt = x
+            elif isinstance(x, ast.Call) and isinstance(x.func, ast.Attribute) and x.func.attr in MUTATORS \
+                    and isinstance(x.func.value, ast.Attribute) and x.func.value.attr == "requested_rules":
+                tgt = x
+            elif isinstance(x, ast.Delete) and any(isinstance(y, ast.Attribute) and y.attr == "requested_rules" for t in x.targets for y in ast.walk(t)):
+                tgt = x
+            if tgt is None:
+                continue
+            n += 1
+            ok = fn.name in ("__init__", "__new__", "__post_init__")
+            rep.check("R-REQUESTED-RULES", fn.qname, fn.loc(tgt), ok, "written-after-construction",
+                      f"`{unparse(tgt)[:70]}` changes the rules a codemod requests outside its constructor: ids taken from a result file (aliases, prefixes) make "
+                      "results of rules the codemod does not own select files and drive rewrites; the codemod objects are module-level singletons, so the change persists")
+    if n < 1:
+        raise AnalysisError("no assignment to requested_rules found (the constructor of RemediationCodemod was confirmed by hand)")
+
+
 def _symbolic_ids(r, e, of_rules: bool) -> set[str] | None:
     """Symbolic set of rule ids: of a `rules=` value (ToolRule objects) or of a `requested_rules=` value (id strings)."""
     e = r.expand(e)
@@ -401,14 +435,75 @@ def rule_match_columns(ctx, rep):
     t = unparse(sl.node)
     ok = "pos.start.line == location.start.line" in t and "pos.end.line == location.end.line" in t
     rep.check("R-MATCH-COLUMNS", sl.qname, sl.loc(), ok, "same_line", "same_line no longer compares both start and end line")
-    overrides = [m for q in ctx.prog.all_subclasses("codemodder.result.Result") for n, m in ctx.prog.classes[q].methods.items() if n == "match_location"]
+    # every override (result classes and transformers alike): each way of accepting a location constrains the columns too, unless
+    # the override delegates to the default or belongs to the one documented line-only tool
+    overrides = [m for m in ctx.prog.live_functions() if m.name == "match_location" and m.cls is not None and m.qname != fn.qname]
     for m in overrides:
-        txt = unparse(m.node)
-        delegating = "super().match_location" in txt
-        documented_line_only = m.cls.qname.endswith("DefectDojoResult")
-        uses_columns = "column" in txt or "fuzzy_column_match" in txt
-        rep.check("R-MATCH-COLUMNS", m.qname, m.loc(), delegating or documented_line_only or uses_columns, "override",
-                  "override of match_location ignores columns without being the documented line-only tool (DefectDojo)")
+        if m.cls.qname.endswith("DefectDojoResult"):
+            rep.instance("R-MATCH-COLUMNS", m.qname, m.loc(), True, detail="override", exempt="DefectDojo findings carry no column data: documented line-only tool")
+            continue
+        bad = None
+        conds = _accepting(ctx, m)
+        whole_line = LINE_UNIT_OVERRIDES.get(m.cls.qname)
+        for txt in conds:
+            if "super().match_location(" in txt:
+                continue
+            if whole_line and "same_line(" in txt:
+                continue  # confirmed exception: the node matched *is* a line
+            has_cols = "fuzzy_column_match(" in txt or (".start.column" in txt and ".end.column" in txt)
+            if not has_cols:
+                bad = txt
+        rep.check("R-MATCH-COLUMNS", m.qname, m.loc(), bool(conds) and bad is None, "override",
+                  f"the override accepts a location under `{(bad or 'nothing recognisable')[:110]}` without looking at columns: every other node of the kind on "
+                  "those lines (a call nested in a reported multi-line call, a second call on the line) is rewritten and reported as well")
+
+
+PRIMITIVE_PREDICATES = {"same_line", "fuzzy_column_match"}
+# overrides whose unit of matching is a whole statement line (one named class each, with the reason)
+LINE_UNIT_OVERRIDES = {
+    "core_codemods.tempfile_mktemp.TempfileMktempTransformer":
+        "filter_by_result offers only cst.SimpleStatementLine nodes: the statement line holding the reported call is identified by its line (start and end)",
+}
+
+
+def _accepting(ctx, fn: FuncInfo, depth: int = 2) -> list[str]:
+    """One text per way `fn` can return something truthy: the facts held at the exit plus one disjunct of the returned predicate; calls to
+    other predicates of the repository (except the two primitives) are replaced by *their* ways of accepting."""
+    out: list[str] = []
+    fa = ctx.flow(fn)
+    r = ctx.resolver(fn)
+    for ex in fa.exits:
+        if ex.kind != "return" or ex.value is None:
+            continue
+        rv = ex.value
+        if isinstance(rv, ast.Constant) and not rv.value:
+            continue
+        pred, extra = rv, []
+        if isinstance(rv, ast.Call) and call_name(rv) in ("any", "all") and rv.args and isinstance(rv.args[0], (ast.GeneratorExp, ast.ListComp)):
+            pred = rv.args[0].elt
+            extra = [c for g in rv.args[0].generators for c in g.ifs]
+        elif isinstance(rv, ast.Constant):
+            pred = None
+        for must, _may in ex.state.parts:
+            held = [(txt if pol else f"not ({txt})") for pol, txt in must if not txt.startswith(("EV:", "MATCH:", "ITER:"))]
+            held += [unparse(c) for c in extra]
+            for conj in (_dnf(pred) if pred is not None else [[]]):
+                alts = [held[:]]
+                for atom in conj:
+                    sub = None
+                    if depth and isinstance(atom, ast.Call) and last_attr(atom.func) not in PRIMITIVE_PREDICATES:
+                        try:
+                            ts = [t for t in r.resolve_call(atom) if isinstance(t, FuncInfo)]
+                        except Exception:
+                            ts = []
+                        if len(ts) == 1 and ts[0].qname != fn.qname:
+                            sub = _accepting(ctx, ts[0], depth - 1)
+                    if sub:
+                        alts = [a + [s_] for a in alts for s_ in sub]
+                    else:
+                        alts = [a + [unparse(atom)] for a in alts]
+                out += [" && ".join(a) for a in alts]
+    return out
 
 
 def rule_candidates_all(ctx, rep):
@@ -454,6 +549,7 @@ def check(ctx, rep):
     rule_rule_keyed(ctx, rep)
     rule_change_findings(ctx, rep)
     rule_requested_rules(ctx, rep)
+    rule_requested_rules_frozen(ctx, rep)
     rule_open_status(ctx, rep)
     rule_match_columns(ctx, rep)
     rule_candidates_all(ctx, rep)
